@@ -18,8 +18,9 @@ LEVEL = "fault_enumeration"
 RULE = (
     "workloads {idle, one command in flight, four queued commands of mixed priority, reset in progress, start-up} x NCP "
     "version {4, 8, 13} (quick: 8) x every wire event of the fault-free run x {before, after} x failure kind {ERROR(0x51), "
-    "ERROR(0x80), unsolicited RSTACK(0x02 power-on), RSTACK(0x03 watchdog), NCP silent, connection_lost(exc), EOF, "
-    "deliberate close()} x {no line noise, a stray XOFF, XOFF+XON from the NCP before the workload}, and for the non-start-up workloads with an earlier command left unanswered (caller timed out / gave up) and with callers that abandon their requests after 2 s / 5 s; plus Hypothesis cases with a generated injection instant and optional line faults. "
+    "ERROR(0x80), unsolicited RSTACK(0x02 power-on), RSTACK(0x03 watchdog), NCP silent, NCP answering DATA alternately with "
+    "NAK and silence, connection_lost(exc), EOF, "
+    "deliberate close()} x {no line noise, a stray XOFF, XOFF+XON from the NCP before the workload}, and for the non-start-up workloads with an earlier command left unanswered (caller timed out / gave up) and with callers that abandon their requests after 2 s / 5 s, and with the application attaching only after a first announcement of the failure (the NCP then announces it again); plus Hypothesis cases with a generated injection instant and optional line faults. "
     "Non-trivial = the injection happened while at least one call was pending; distinct by plan."
 )
 ASSUMPTIONS = [
@@ -30,7 +31,7 @@ ASSUMPTIONS = [
     "bound for calls in progress: injection time + 10 s command timeout + 5 x 3.2 s link timeouts = 26 s of virtual time",
 ]
 
-KINDS = ["error51", "error80", "rstack02", "rstack03", "silent", "lost", "eof", "close"]
+KINDS = ["error51", "error80", "rstack02", "rstack03", "silent", "nakflap", "lost", "eof", "close"]
 BOUND = 10 + 5 * 3.2 + 0.1
 WORKLOADS = ["idle", "one", "queue", "reset", "startup"]
 
@@ -57,7 +58,9 @@ async def scenario(loop, plan, out):
         out["ezsp"] = ezsp
         resets = []
         out["resets"] = resets
-        ezsp.add_callback(lambda name, args=None: resets.append((loop.time(), args)) if name == "_reset_controller_application" else None)
+        app_cb = lambda name, args=None: resets.append((loop.time(), args)) if name == "_reset_controller_application" else None
+        if not plan.get("late_app"):
+            ezsp.add_callback(app_cb)
         wl = plan["workload"]
         calls = []  # (name, task, start)
         out["calls"] = calls
@@ -65,13 +68,31 @@ async def scenario(loop, plan, out):
         out["inj"] = inj
         base = {"g": None}
 
-        def inject():
+        def inject2():
+            inject(second=True)
+
+        def inject(second=False):
             if inj["t"] is not None:
+                return
+            if inj.get("first_done") and not second:
+                return  # another trigger of the same injection point
+            k = plan["kind"]
+            if plan.get("late_app") and not inj.get("first_done"):
+                # the same failure once before any application is attached (nobody to tell), then the application
+                # attaches, then the NCP announces it again: that second announcement must be reported
+                inj["first_done"] = True
+                if k == "error51":
+                    stack.ash._fail(0x51)
+                elif k == "error80":
+                    stack.ash._fail(0x80)
+                else:
+                    stack.spontaneous_rstack(0x02 if k == "rstack02" else 0x03)
+                loop.call_later(0.05, ezsp.add_callback, app_cb)
+                loop.call_later(0.1, inject2)
                 return
             inj["t"] = loop.time()
             inj["host_writes"] = len(stack.host_writes)
             inj["pending"] = [c[0] for c in calls if not c[1].done()]
-            k = plan["kind"]
             if k == "error51":
                 stack.ash._fail(0x51)
             elif k == "error80":
@@ -80,6 +101,23 @@ async def scenario(loop, plan, out):
                 stack.spontaneous_rstack(0x02 if k == "rstack02" else 0x03)
             elif k == "silent":
                 stack.line.dead = True
+            elif k == "nakflap":
+                # the NCP no longer acknowledges anything: it answers DATA frames alternately with a NAK and with silence
+                from vlib import refash as _ra
+
+                flap = {"n": 0}
+                orig_feed = stack.ash.feed
+
+                def feed(data):
+                    for f in _ra.split_wire(data):
+                        if f.get("kind") == "DATA":
+                            flap["n"] += 1
+                            if flap["n"] % 2 == 1:
+                                stack.ash._out(_ra.enc_nak(stack.ash.rx_seq))
+                    return None
+
+                stack.ash.feed = feed
+                stack.line.h2n.sink = feed
             elif k == "lost":
                 stack.transport.closed = True
                 stack.proto.connection_lost(Boom("serial port vanished"))
@@ -210,6 +248,8 @@ def check(plan) -> Result:
         r.cls("flow-control-noise")
     if plan.get("stale"):
         r.cls("stale-unanswered-command:" + plan["stale"])
+    if plan.get("late_app"):
+        r.cls("application-attached-after-first-announcement")
     if plan.get("giveup") is not None:
         r.cls("callers-give-up")
     if plan.get("at") is None and plan.get("at_time") is None:
@@ -236,10 +276,13 @@ def check(plan) -> Result:
             r.bad("C10:deliberate-close-requests-reset", f"{resets}; plan {plan}")
     else:
         host_data_after = [1 for tm, f, raw in stack.host_frames(inj["host_writes"]) if f.get("kind") == "DATA"]
-        must = kind != "silent" or bool(host_data_after)
+        must = kind not in ("silent", "nakflap") or bool(host_data_after)
         if any(fk in ("ERROR", "RSTACK") for _, _, fk in stack.line.n2h.hits):
             must = False  # the line lost or damaged the very frame that announces the failure
             r.cls("announcement-lost-on-line")
+        if any(fk == "RST" for _, _, fk in stack.line.h2n.hits):
+            must = False  # a lost or duplicated RST leaves the two ends with different frame numbers: not this property's case
+            r.cls("reset-request-damaged-on-line")
         if must and not resets:
             r.bad(f"C10:failure-not-reported:{kind}", f"no _reset_controller_application after {kind} at t={inj['t']:.4f}; ends {out['ends']}; plan {plan}")
         if resets:
@@ -280,6 +323,8 @@ def _worker_enum(ctx, job):
         points = [(i, pos) for i in range(n) for pos in ("before", "after")]
     for at, pos in points:
         for kind in KINDS:
+            if extra.get("late_app") and kind not in ("error51", "error80", "rstack02", "rstack03"):
+                continue
             plan = {"v": v, "workload": wl, "kind": kind, "at": at, "pos": pos}
             plan.update(extra)
             if noise:
@@ -295,6 +340,8 @@ fate = st.one_of(st.just(["d"]), st.just(["d"]), st.just(["d"]), st.just(["x"]),
 def plans(draw):
     plan = {"v": draw(st.sampled_from([4, 5, 7, 8, 11, 13, 14])), "workload": draw(st.sampled_from(WORKLOADS)),
             "kind": draw(st.sampled_from(KINDS)), "at_time": draw(st.sampled_from([0.0001, 0.0015, 0.0021, 0.0042, 0.011, 0.3, 1.7, 2.9]))}
+    if plan["kind"] in ("error51", "error80", "rstack02", "rstack03") and draw(st.integers(0, 3)) == 0:
+        plan["late_app"] = True
     if draw(st.integers(0, 3)) == 0:
         plan["stale"] = draw(st.sampled_from(["timeout", "cancel"]))
     if draw(st.integers(0, 3)) == 0:
@@ -316,7 +363,7 @@ def run(ctx):
     vs = [4, 8] if quick else list(range(4, 15))
     jobs = [(v, wl, noise, {}) for v in vs for wl in WORKLOADS for noise in (None, [0x13], [0x13, 0x11])]
     jobs += [(v, wl, None, extra) for v in vs for wl in ("idle", "one", "queue", "reset")
-             for extra in ({"stale": "timeout"}, {"stale": "cancel"}, {"giveup": 2.0}, {"giveup": 5.0, "stale": "cancel"})]
+             for extra in ({"stale": "timeout"}, {"stale": "cancel"}, {"giveup": 2.0}, {"giveup": 5.0, "stale": "cancel"}, {"late_app": True})]
     ctx.parallel(_worker_enum, jobs)
     ctx.exhaustive["every wire event x before/after x 8 failure kinds for the listed workloads and versions"] = True
     ctx.parallel(_worker, [300] * 16 if quick else [5000] * 16)
